@@ -116,7 +116,7 @@ def o161(ctx):
     want = expected_gain(jy, jx, H, W, mk("float", sym("pixel_size")), dose)
     rng = np.random.default_rng(tm.SEED + 16)
     envs = []
-    for i in range(60):
+    for i in range(60 * tm.N_MULT):
         env = imgdom.sample_env(list(axes) + zaxis, rng, {"pixel_size": pos_sampler(0.5, 10.0)})
         env["doses"] = rng.uniform(0, 300, size=64)
         env.setdefault("N", float(rng.integers(1, 11)))
@@ -130,7 +130,7 @@ def o161(ctx):
             for A in axes[-2:]:
                 env[A.sym.args[0]] = float(rng.integers(0, int(tm.evaluate(A.n, env))))
         envs.append(env)
-    v = tm.equivalent(filt.gain, want, n=60, extra_envs=envs, tol=1e-9, seed_tag=Q, need=40)
+    v = tm.equivalent(filt.gain, want, n=len(envs), extra_envs=envs, tol=1e-9, seed_tag=Q, need=40)
     ctx.count(60, {"specified gain": "exp(-dose_i/(2*(0.245*f^-1.665+2.81))), f from signed FFT frequencies", "equal": bool(v),
                    "points": v.points})
     if not v:
